@@ -182,6 +182,36 @@ func init() {
 					})
 				},
 				Eval: func(w *fw.W, s, _ string) { evalC07Pred(w, s, "url") }},
+			{Name: "url-long-values", Space: "URL values = unit^k + scheme (+ tail) and scheme letters spread by unit^k, for every k in 0..100 and -2..+2 around 128 .. 4096 and every new integer constant, 12 units (kept bytes x, /, a rune; stripped or ignored bytes; references to each) x 4 scheme stems x {lower, UPPER}: the URL predicate of model and implementation at every distance from the start of the value", Share: 1,
+				Run: func(w *fw.W) {
+					var ks []int
+					for k := 0; k <= 100; k++ {
+						ks = append(ks, k)
+					}
+					cs := []int{128, 256, 512, 1024, 4096}
+					for _, n := range alpha.NewInts() {
+						if n > 100 && n <= 1<<16 {
+							cs = append(cs, n)
+						}
+					}
+					for _, c := range cs {
+						for d := -2; d <= 2; d++ {
+							ks = append(ks, c+d)
+						}
+					}
+					units := []string{"x", "/", "\u00e9", " ", "\x01", "\x7f", "\xff", "\x00", "\n", "&#120;", "&#32;", "&#0;"}
+					var items []string
+					for _, sc := range []string{"javascript:", "vbscript:", "data:", "view-source:", "JAVASCRIPT:", "VBSCRIPT:", "DATA:", "VIEW-SOURCE:"} {
+						for _, k := range ks {
+							for _, u := range units {
+								r := strings.Repeat(u, k)
+								items = append(items, r+sc+"x", r+sc[:1]+"&#x"+fmt.Sprintf("%x", sc[1])+";"+sc[2:], sc[:2]+r+sc[2:]+"x")
+							}
+						}
+					}
+					w.Each(len(items), func(i int) { w.Item(items[i], "") })
+				},
+				Eval: func(w *fw.W, s, _ string) { evalC07Pred(w, s, "url") }},
 		},
 	})
 }
